@@ -396,3 +396,52 @@ func init() {
 		},
 	}
 }
+
+func init() {
+	props["C20"] = &PropSpec{
+		ID: "C20",
+		Jobs: func(tier string) []*Job {
+			var js []*Job
+			for r := 0; r < 4; r++ {
+				for k := 0; k < 5; k++ {
+					js = append(js, &Job{Harness: "C20Log", Params: map[string]int{"resolver": r, "kind": k}})
+				}
+			}
+			return js
+		},
+		Bounds: func(tier string) string {
+			return "4 resolver configurations (none, succeeding, failing, per-route override over a failing router-wide one) x 5 handler kinds (route, 404, 405, trailing-slash redirect, OPTIONS) x 6 handler behaviours (WriteHeader(code) for every code 100..999 by solver, implicit 200 via Write, Redirect with Location, 301 without Location, nothing written, panic); A/B against the same router without the middleware"
+		},
+		RequiredCovers: []string{"2xx", "3xx", "4xx", "5xx", "location logged", "panic through logger"},
+		Assumptions: []string{
+			"log/slog front end modelled: slog.String/Int/Duration/Any/Group and Logger.LogAttrs/Error hand level, message and attributes to the capturing handler (natively the same handler receives the real slog.Record); slog's own delivery is outside the claim",
+			"time.Now/time.Since are stubs (fixed latency); the latency attribute is not asserted",
+			"the level for a recorded status below 200 is not specified by the statement and not asserted",
+		},
+	}
+}
+
+func init() {
+	props["C15"] = &PropSpec{
+		ID: "C15",
+		Jobs: func(tier string) []*Job {
+			var js []*Job
+			for _, k := range []int{0, 1, 2, 4} {
+				js = append(js, &Job{Harness: "C15Panic", Params: map[string]int{"kind": k}})
+			}
+			for h := 0; h < 6; h++ {
+				js = append(js, &Job{Harness: "C15Redact", Params: map[string]int{"header": h}})
+			}
+			return js
+		},
+		Bounds: func(tier string) string {
+			return "10 panic values (error, wrapped and bare http.ErrAbortHandler, string, custom struct, *net.OpError over *os.SyscallError with 'broken pipe' / 'Connection reset by peer' / other, a run-time error, OpError without SyscallError) x 3 response progress states x 4 handler kinds (route, 404, 405, OPTIONS); redaction: each of the six credential header names in every capitalisation (2^letters spellings per name, decided by the solver on a byte-wise case constraint); panics inside Updates/View are covered by C04"
+		},
+		RequiredCovers: []string{"ErrAbortHandler re-raised", "500 written", "broken connection: nothing written", "spelled as in the list", "other capitalisation"},
+		Assumptions: []string{
+			"httputil.DumpRequest modelled: request line, Host line, one 'Key: value' line per stored header value with keys as stored, CRLF separated (natively the real DumpRequest is used on replay)",
+			"log/slog front end modelled as in C20; runtime.Callers returns no frames (stack text not asserted)",
+			"strings.EqualFold modelled as ASCII case folding (non-ASCII symbolic bytes are UNSUPPORTED, not assumed away)",
+		},
+	}
+}
